@@ -36,6 +36,15 @@ CHECKS["C06"] = ("other",
     "Found and repaired two genuine defects (known_findings.txt). Not claimed: clap's flag validation.",
     TB % "c06", "decision tables + fold monitors via abstract interpretation of MIR (no execution)", "DESIGN.md §5 C06")
 
+CHECKS["C03"] = ("other",
+    "Must-flow of the clause's prefix negation into every operator evaluator on every path (with an exact 2x2 table: the "
+    "binary evaluator receives operator-not XOR prefix-not, the unary one both unchanged), the parser sets `negation` from "
+    "the parsed not/NOT/! prefix at every clause construction, and the flip tables (not_operation / inverse_operation "
+    "closures, the `empty` result-set special case, the (CmpOperator,bool) Success<->Fail map with NotComparable/Unresolved "
+    "unchanged, named-rule table, order-table complements). Found and repaired one genuine defect (prefix not ignored on "
+    "binary operators). Not claimed: the recomputed diff lists of negated list comparisons.",
+    TB % "c03", "must-flow + decision tables via abstract interpretation of MIR (no execution)", "DESIGN.md §5 C03")
+
 NOT_APPLICABLE = {
 }
 
